@@ -508,7 +508,6 @@ def writeResult (as : List Arg) (node : Bytes) (res : PResult) (s : Bytes) : Lis
 /-- `stmtSetplugstate` with the context reduced to the script argument -/
 def setplugstateCore (d : Dev) (a : Action) (o : Oracle) (target : Option Bytes) (lit : Option Bytes) (plugMp statMp : Int)
     (interps : List (PState × Nat)) : StepR :=
-  if !d.xmUsed then ⟨d, a, o, [.abortAssert "xm_used"], true⟩ else
   match chosenName d lit plugMp target with
   | none => ⟨d, a, o, [], true⟩
   | some pn =>
@@ -523,15 +522,12 @@ theorem stmtSetplugstate_eq (d : Dev) (a : Action) (o : Oracle) (e : ExecCtx) (l
     stmtSetplugstate d a o e lit plugMp statMp interps = setplugstateCore d a o (ctxName e.plugs) lit plugMp statMp interps := by
   obtain ⟨blk, pos, plugs, itr, cp, proc⟩ := e
   unfold stmtSetplugstate setplugstateCore chosenName writeState
-  by_cases hx : d.xmUsed = true
-  · simp only [hx, Bool.not_true, Bool.false_eq_true, ↓reduceIte]
-    cases lit with
+  cases lit with
+  | some n => rfl
+  | none =>
+    cases subOf d plugMp with
     | some n => rfl
-    | none =>
-      cases subOf d plugMp with
-      | some n => rfl
-      | none => rcases plugs with _ | _ | ⟨p, l⟩ <;> rfl
-  · simp [hx]
+    | none => rcases plugs with _ | _ | ⟨p, l⟩ <;> rfl
 
 theorem setplugstateCore_frame (d : Dev) (a : Action) (o : Oracle) (t lit : Option Bytes) (pm sm : Int)
     (is : List (PState × Nat)) :
@@ -539,30 +535,27 @@ theorem setplugstateCore_frame (d : Dev) (a : Action) (o : Oracle) (t lit : Opti
   unfold setplugstateCore
   split
   · simp
-  · split
-    · simp
-    · split <;> simp
+  · split <;> simp
 
 /-- the write: only cells of this action's arglist whose node is the plug's node change, and they receive the state of
     the first matching interpretation and the captured text -/
 theorem setplugstateCore_writes (d : Dev) (a : Action) (o : Oracle) (t lit : Option Bytes) (pm sm : Int)
-    (is : List (PState × Nat)) (pn s : Bytes) (plug : Plug) (hx : d.xmUsed = true)
+    (is : List (PState × Nat)) (pn s : Bytes) (plug : Plug)
     (hn : chosenName d lit pm t = some pn) (hs : subOf d sm = some s) (hp : findPlug d pn = some plug) :
     (setplugstateCore d a o t lit pm sm is).dev =
       setArgs d a.arglist (writeState (getArgs d a.arglist) (plug.node.getD []) (pickState askRx s is o []).2.1 s) ∧
     (setplugstateCore d a o t lit pm sm is).oracle = (pickState askRx s is o []).1 ∧
     (setplugstateCore d a o t lit pm sm is).out = (pickState askRx s is o []).2.2 := by
   unfold setplugstateCore
-  simp [hx, hn, hs, hp]
+  simp [hn, hs, hp]
 
 /-- no plug name, no status capture, or a name that is not a mapped plug of this device: nothing is written -/
 theorem setplugstateCore_nothing (d : Dev) (a : Action) (o : Oracle) (t lit : Option Bytes) (pm sm : Int)
-    (is : List (PState × Nat)) (hx : d.xmUsed = true)
+    (is : List (PState × Nat))
     (h : chosenName d lit pm t = none ∨ subOf d sm = none ∨
          ∃ pn, chosenName d lit pm t = some pn ∧ findPlug d pn = none) :
     setplugstateCore d a o t lit pm sm is = ⟨d, a, o, [], true⟩ := by
   unfold setplugstateCore
-  simp only [hx, Bool.not_true, Bool.false_eq_true, ↓reduceIte]
   rcases h with h | h | ⟨pn, h1, h2⟩
   · simp [h]
   · split
@@ -642,12 +635,10 @@ theorem stmtSetresult_frame (d : Dev) (a : Action) (o : Oracle) (pm sm : Int) (i
   unfold stmtSetresult
   split
   · simp
-  · split
-    · simp
-    · split <;> simp
+  · split <;> simp
 
 theorem stmtSetresult_writes (d : Dev) (a : Action) (o : Oracle) (pm sm : Int)
-    (is : List (PResult × Nat)) (pn s : Bytes) (plug : Plug) (hx : d.xmUsed = true)
+    (is : List (PResult × Nat)) (pn s : Bytes) (plug : Plug)
     (hn : subOf d pm = some pn) (hs : subOf d sm = some s) (hp : findPlug d pn = some plug) :
     (stmtSetresult d a o pm sm is).dev =
       setArgs d a.arglist (writeResult (getArgs d a.arglist) (plug.node.getD []) (pickResult askRx s is o []).2.1 s) ∧
@@ -655,14 +646,13 @@ theorem stmtSetresult_writes (d : Dev) (a : Action) (o : Oracle) (pm sm : Int)
     (stmtSetresult d a o pm sm is).out = (pickResult askRx s is o []).2.2 ++
       resultDiag d a (plug.node.getD []) (pickResult askRx s is o []).2.1 s := by
   unfold stmtSetresult resultDiag writeResult
-  simp [hx, hn, hs, hp]
+  simp [hn, hs, hp]
 
 theorem stmtSetresult_nothing (d : Dev) (a : Action) (o : Oracle) (pm sm : Int)
-    (is : List (PResult × Nat)) (hx : d.xmUsed = true)
+    (is : List (PResult × Nat))
     (h : subOf d pm = none ∨ subOf d sm = none ∨ ∃ pn, subOf d pm = some pn ∧ findPlug d pn = none) :
     stmtSetresult d a o pm sm is = ⟨d, a, o, [], true⟩ := by
   unfold stmtSetresult
-  simp only [hx, Bool.not_true, Bool.false_eq_true, ↓reduceIte]
   rcases h with h | h | ⟨pn, h1, h2⟩
   · simp [h]
   · split
